@@ -104,8 +104,35 @@ func (f *c18Fake) Query(ctx context.Context, in *pb.QueryRequest, opts ...grpc.C
 // VerifC18EndToEnd: universes of the second C06 generation restricted to what the API can say about a version
 // (the latest tag; no next tag, no deprecation) and about a requirement (the four sections, bundleDependencies
 // by name, aliases).
+// c18Expressible: a package.json section is a map from installed name to requirement, so one version cannot
+// state two requirements of different packages under one installed name (a bundleDependencies entry b next to an
+// alias b of another package); the service could not report such a version.
+func c18Expressible(es []c06Entry) bool {
+	for _, e := range es {
+		for i, a := range e.reqs {
+			na := a.Name
+			if al, ok := a.Type.GetAttr(dep.KnownAs); ok && al != "" {
+				na = al
+			}
+			for _, b := range e.reqs[i+1:] {
+				nb := b.Name
+				if al, ok := b.Type.GetAttr(dep.KnownAs); ok && al != "" {
+					nb = al
+				}
+				if na == nb && a.Name != b.Name {
+					return false
+				}
+			}
+		}
+	}
+	return true
+}
+
 func VerifC18EndToEnd() {
 	es, root := c06Entries2()
+	if !c18Expressible(es) {
+		return
+	}
 	// every package exists for the service, also one without versions: keep to universes in which each required
 	// package has at least one version, so that the stand-in never has to say NotFound through grpc status
 	ctx := context.Background()
@@ -113,6 +140,25 @@ func VerifC18EndToEnd() {
 	g1, err1 := NewResolver(lc).Resolve(ctx, root)
 	api := resolve.NewAPIClient(&c18Fake{es: es})
 	g2, err2 := NewResolver(api).Resolve(ctx, root)
+	if !vEngine() {
+		for _, e := range es {
+			s := e.v.String() + " " + e.v.AttrSet.String() + " <-"
+			for _, r := range e.reqs {
+				s += " [" + r.String() + " " + r.Type.String() + "]"
+			}
+			vNote(s)
+		}
+		if err1 == nil {
+			vNote("in-memory client:\n" + g1.String())
+		} else {
+			vNote("in-memory client: " + err1.Error())
+		}
+		if err2 == nil {
+			vNote("API-backed client:\n" + g2.String())
+		} else {
+			vNote("API-backed client: " + err2.Error())
+		}
+	}
 	vAssert((err1 == nil) == (err2 == nil), "both clients lead to a graph or both to an error")
 	if err1 != nil || err2 != nil {
 		return
@@ -128,6 +174,9 @@ func VerifC18EndToEnd() {
 // eight concurrent resolutions on one client under the race detector.
 func VerifC18Shared() {
 	es, root := c06Entries2()
+	if !c18Expressible(es) {
+		return
+	}
 	f := &c18Fake{es: es, bundleRoot: true}
 	api := resolve.NewAPIClient(f)
 	alt := es[1+vParam("alt")%(len(es)-1)].v.VersionKey
